@@ -216,6 +216,18 @@ func genC16(rng *rand.Rand, tier string) *sim.Plan {
 				if chance(rng, 0.5) {
 					churn(&j, b)
 				}
+				if chance(rng, 0.5) {
+					// ... and exactly when the Hello reply reaches the node that is about to queue its full state
+					for _, x := range []int{a, b} {
+						for _, c := range []int{l.chA[x], l.chB[x]} {
+							for _, f := range c16filters[:4] {
+								if chance(rng, 0.4) {
+									j.Ops = append(j.Ops, sim.Op{K: "unsubscribe", C: c, Filters: []string{f}, Trigger: "hello>" + fedNode(x), Instant: true, NoWait: true, D: sim.Sec(4)})
+								}
+							}
+						}
+					}
+				}
 				if chance(rng, 0.6) {
 					// subscriptions of the node that resynchronises go away while it queues its full state
 					for _, c := range []int{l.chA[b], l.chB[b], l.chA[a], l.chB[a]} {
